@@ -51,6 +51,7 @@ ACCESSOR_FNS = (
     "core::ptr::non_null::NonNull::cast",
     "core::ptr::mut_ptr::*mut T::cast_const",
     "core::ptr::const_ptr::*const T::cast_mut",
+    "core::iter::traits::collect::<I as IntoIterator>::into_iter",
 )
 
 
